@@ -165,21 +165,32 @@ func newTwin(t *testing.T) *twin {
 	}
 	sort.Slice(tw.vals, func(i, j int) bool { return tw.vals[i].op < tw.vals[j].op })
 	tw.chainID = tw.A.EvmChainID()
-	// make validator powers differ: actor 0 delegates natively on both chains
+	// initial delegations (natively, both chains alike), chosen so that the first steps of a sequence meet
+	//   - callers with several delegations (undelegate / redelegate / withdraw have something to work on),
+	//   - callers with none (pcc, pcd, pmulti: transfer()'s "middle of all bonded validators"),
+	//   - validators with EQUAL tokens (transfer()'s tie-break by operator): V0 = V1 and V2 = V3, and with V4 the lowest
+	//     the middle of the five is inside the V0/V1 tie; actor0 / pcall are delegated to a tied pair,
+	//   - dust delegations that earn less than the withdrawal minimum (withdrawRewards() must skip them).
 	bonded := tw.bondedVals()
+	require.GreaterOrEqual(t, len(bonded), 5)
+	type seedDel struct {
+		who *itutiltypes.TestAccount
+		val int
+		amt *big.Int
+	}
+	seeds := []seedDel{
+		{tw.actors[0], 0, e18(2)}, {tw.actors[0], 1, e18(2)},
+		{tw.actors[1], 0, e18(2)}, {tw.actors[1], 4, big.NewInt(1000)},
+		{tw.actors[2], 1, e18(2)},
+		{tw.proxy["pcall"], 2, e18(4)}, {tw.proxy["pcall"], 3, e18(4)},
+		{tw.proxy["pdeleg"], 2, e18(4)}, {tw.proxy["pdeleg"], 4, big.NewInt(1000)},
+		{tw.proxy["pdd"], 3, e18(4)},
+	}
 	tw.both(func(c *Chain) {
 		ms := stakingkeeper.NewMsgServerImpl(c.App.StakingKeeper)
-		for i, amt := range []int64{3, 1, 2} {
-			_, err := ms.Delegate(c.Ctx(), stakingtypes.NewMsgDelegate(tw.actors[0].GetCosmosAddress().String(), bonded[i].op, sdk.NewCoin(tw.bond, sdkmath.NewIntFromBigInt(e18(amt)))))
+		for _, sd := range seeds {
+			_, err := ms.Delegate(c.Ctx(), stakingtypes.NewMsgDelegate(sd.who.GetCosmosAddress().String(), bonded[sd.val].op, sdk.NewCoin(tw.bond, sdkmath.NewIntFromBigInt(sd.amt))))
 			require.NoError(t, err)
-		}
-		// every account that can be a caller starts with two delegations (so that undelegate / redelegate / withdraw have
-		// something to work on from the first step), one of them small enough to earn less than the withdrawal minimum
-		for i, a := range tw.tracked[1:] {
-			for j, amt := range []*big.Int{e18(int64(2 + i)), big.NewInt(int64(1000 * (i + 1)))} {
-				_, err := ms.Delegate(c.Ctx(), stakingtypes.NewMsgDelegate(a.GetCosmosAddress().String(), bonded[(i+2*j)%len(bonded)].op, sdk.NewCoin(tw.bond, sdkmath.NewIntFromBigInt(amt))))
-				require.NoError(t, err)
-			}
 		}
 		c.RunBlock(nil)
 	})
